@@ -502,6 +502,28 @@ def _iter_any(eng, st, fr, t, args, dest, target):
         items = drive_items(eng, st, it[2])
         if items is not None:
             return _drive_any(eng, st, dest, target, args[1], items, 0, is_any)
+    items2, fns2, _b = iter_plan(eng, st, it)
+    if items2 is not None:
+        acc = []
+
+        def on_item(st, c):
+            if is_const(c):
+                if bool(cval(c)) == is_any:
+                    out = cbool(is_any)
+                    for c2 in reversed(acc):
+                        out = ite(c2, cbool(is_any), out) if is_any else ite(c2, out, cbool(is_any))
+                    return (out,)
+                return None
+            acc.append(c)
+            return None
+
+        def on_end():
+            out = cbool(not is_any)
+            for c2 in reversed(acc):
+                out = ite(c2, cbool(is_any), out) if is_any else ite(c2, out, cbool(is_any))
+            return out
+        fclo = eng.force(st, args[1])
+        return run_pipeline(eng, st, dest, target, items2, fns2 + [fclo], on_item, on_end)
     return ('app', 'any' if is_any else 'all', (eng.purify(st, it), eng.purify(st, args[1])))
 
 
@@ -924,4 +946,373 @@ def _scope(eng, st, fr, t, args, dest, target):
     sc = mk_ref(('S', ('scope', fr.body.path, fr.block)), ())
     eng.event(st, 'scope', fn=fr.body.path)
     eng.call_callable(st, args[0], [sc], ('wrap', dest, target, lambda x: x))
+    return DEFER
+
+
+@model('<std::collections::HashMap<K, V> as std::convert::From<[(K, V); N]>>::from',
+       '<std::collections::BTreeMap<K, V> as std::convert::From<[(K, V); N]>>::from')
+def _map_from_array(eng, st, fr, t, args, dest, target):
+    a = eng.force(st, args[0])
+    if a[0] == 'array':
+        m = ('map', None, ())
+        for it in a[1]:
+            it = eng.force(st, it)
+            if it[0] != 'tuple' or len(it[1]) != 2:
+                return ('app', 'map_from', (eng.purify(st, a),))
+            m = map_put(m, eng.force(st, it[1][0]), it[1][1])
+        return m
+    return ('app', 'map_from', (eng.purify(st, a),))
+
+
+import re as _re
+_NUM_FROM = _re.compile(r"^(std|core)::convert::num::<impl (std|core)::convert::From<(u8|u16|u32|i8|i16|i32|f32|bool)> for (f64|f32|u16|u32|u64|i16|i32|i64|usize|isize|u128|i128)>::from$")
+
+
+def _num_from(eng, st, fr, t, args, dest, target):
+    m = _NUM_FROM.match(t['callee'].get('resolved') or '')
+    return eng.cast(st, 'IntToFloat' if m and m.group(4) in ('f64', 'f32') else 'IntToInt', args[0], m.group(4) if m else 'f64')
+
+
+_orig_mbp = None
+
+
+@model('<T as std::convert::Into<U>>::into')
+def _into(eng, st, fr, t, args, dest, target):
+    ga = t['callee'].get('gargs') or []
+    if len(ga) >= 2:
+        T, U = ga[0], ga[1]
+        if T == U:
+            return args[0]
+        for p, b in eng.facts.bodies.items():
+            io = b.impl_of
+            if io and (io.get('trait') or '').endswith('convert::From') and io.get('self_ty') == U and b.arg_count == 1 and \
+                    b.locals[1]['s'] == T and p.split('::')[-1] == 'from':
+                eng.push_call(st, b, [args[0]], dest, target, None, None)
+                return DEFER
+    return ('app', 'into', (eng.purify(st, args[0]),))
+
+
+# ======================================================================================= generic iterator pipelines
+def iter_plan(eng, st, it):
+    """(items | None, [closures to apply in order]) for an iterator value; items are the element values"""
+    fns = []
+    it = eng.force(st, it)
+    while isinstance(it, tuple) and it and it[0] == 'iter' and it[1] == 'mapped':
+        fns.insert(0, it[3])
+        it = eng.force(st, it[2])
+    if not (isinstance(it, tuple) and it and it[0] == 'iter'):
+        return None, fns, it
+    kind = it[1]
+    if kind == 'map':
+        items = drive_items(eng, st, it[2])
+        return (None if items is None else [('tuple', kv) for kv in items]), fns, it
+    if kind == 'values':
+        items = drive_items(eng, st, it[2])
+        return (None if items is None else [v for _, v in items]), fns, it
+    if kind == 'val':
+        v = eng.force(st, it[2])
+        if v[0] == 'map' and v[1] is None:
+            return [('tuple', (k, x)) for k, x in v[2]], fns, it
+        if v[0] in ('vec', 'array'):
+            return list(v[1]), fns, it
+        return None, fns, it
+    if kind == 'seq':
+        items = _concrete_seq(eng, st, it)
+        return items, fns, it
+    return None, fns, it
+
+
+def run_pipeline(eng, st, dest, target, items, fns, on_item, on_end):
+    """apply fns to every item (closures via continuations), feed the results to on_item(result) -> stop value | None,
+    finally write on_end() to dest"""
+    def next_item(st, i):
+        if i >= len(items):
+            eng.finish_call(st, st.frames[-1], dest, target, on_end())
+            return
+        apply_fn(st, i, 0, items[i])
+
+    def apply_fn(st, i, j, val):
+        if j >= len(fns):
+            stop = on_item(st, val)
+            if stop is not None:
+                eng.finish_call(st, st.frames[-1], dest, target, stop[0])
+                return
+            next_item(st, i + 1)
+            return
+
+        def cont(st, fr2, dest_, target_, rv, i=i, j=j):
+            apply_fn(st, i, j + 1, rv)
+        eng.call_callable(st, fns[j], [val], ('seq', dest, target, cont))
+    next_item(st, 0)
+    return DEFER
+
+
+def build_collection(kind, results, eng, st):
+    if kind == 'map':
+        m = ('map', None, ())
+        for r in results:
+            r = eng.force(st, r)
+            if r[0] != 'tuple' or len(r[1]) != 2:
+                raise Unmodelled('collect: item is not a pair')
+            m = map_put(m, eng.force(st, r[1][0]), r[1][1])
+        return m
+    return ('vec', tuple(results))
+
+
+def _collect_generic(eng, st, fr, t, args, dest, target, kind):
+    items, fns, base = iter_plan(eng, st, args[0])
+    if items is None:
+        if not (isinstance(base, tuple) and base and base[0] == 'iter'):
+            return ('app', 'collect', (eng.purify(st, args[0]),))
+        # symbolic source: the closures are applied to one generic element; the collection is the sum over the source
+        pit = eng.purify(st, base)
+        lid = ('collect', fr.body.path, fr.block)
+
+        def fin(st, v):
+            if kind == 'map':
+                r = eng.force(st, v)
+                if r[0] != 'tuple' or len(r[1]) != 2:
+                    raise Unmodelled('collect: item is not a pair')
+                k = eng.force(st, r[1][0])
+                h = eng.hooks.get('map_insert')
+                if h:
+                    h(eng, st, st.frames[-1], t, None, k, r[1][1])
+                return ('mapsum', ('map', None, ()), lid, ('map', None, ((k, r[1][1]),)))
+            h = eng.hooks.get('vec_push')
+            if h:
+                h(eng, st, st.frames[-1], t, None, v)
+            return ('vecsum', ('vec', ()), lid, v)
+
+        def apply_sym(st, j, val):
+            if j >= len(fns):
+                eng.finish_call(st, st.frames[-1], dest, target, fin(st, val))
+                return
+
+            def cont(st, fr2, dest_, target_, rv, j=j):
+                apply_sym(st, j + 1, rv)
+            eng.call_callable(st, fns[j], [val], ('seq', dest, target, cont))
+        apply_sym(st, 0, ('iterval', lid, pit))
+        return DEFER
+    results = []
+
+    def on_item(st, v):
+        results.append(v)
+        return None
+    return run_pipeline(eng, st, dest, target, items, fns, on_item, lambda: build_collection(kind, results, eng, st))
+
+
+@model('std::iter::Iterator::collect')
+def _collect(eng, st, fr, t, args, dest, target):
+    ga = t['callee'].get('gargs') or []
+    tgt = ga[1] if len(ga) > 1 else ''
+    kind = 'map' if ('HashMap<' in tgt or 'BTreeMap<' in tgt) else 'vec'
+    return _collect_generic(eng, st, fr, t, args, dest, target, kind)
+
+
+def _from_iter2(eng, st, fr, t, args, dest, target):
+    return _collect_generic(eng, st, fr, t, args, dest, target, 'map')
+
+
+for _n in ('<std::collections::HashMap<K, V, S> as std::iter::FromIterator<(K, V)>>::from_iter',
+           '<std::collections::BTreeMap<K, V> as std::iter::FromIterator<(K, V)>>::from_iter'):
+    MODELS[_n] = _from_iter2
+
+
+@model('std::collections::HashMap::<K, V, S, A>::values', 'std::collections::BTreeMap::<K, V, A>::values')
+def _map_values(eng, st, fr, t, args, dest, target):
+    r, p = ptr_of(eng, st, args[0])
+    return ('iter', 'values', mk_ref(r, p))
+
+
+@model('<std::collections::HashMap<K, V, S, A> as std::iter::IntoIterator>::into_iter',
+       '<std::collections::BTreeMap<K, V, A> as std::iter::IntoIterator>::into_iter')
+def _map_into_iter(eng, st, fr, t, args, dest, target):
+    return ('iter', 'val', eng.force(st, args[0]))
+
+
+@model("<&'a std::collections::HashMap<K, V, S, A> as std::iter::IntoIterator>::into_iter",
+       "<&'a std::collections::BTreeMap<K, V, A> as std::iter::IntoIterator>::into_iter")
+def _map_ref_into_iter(eng, st, fr, t, args, dest, target):
+    r, p = ptr_of(eng, st, args[0])
+    return ('iter', 'map', mk_ref(r, p))
+
+
+@model('std::iter::Iterator::find_map')
+def _find_map(eng, st, fr, t, args, dest, target):
+    r, p = ptr_of(eng, st, args[0])
+    itv = eng.force(st, eng.load(st, r, p))
+    items, fns, base = iter_plan(eng, st, itv)
+    f = args[1]
+    if items is not None:
+        def on_item(st, v):
+            vn, vv = variant_of(eng, st, v, OPT)
+            return (vv,) if vn == 'Some' else None
+        return run_pipeline(eng, st, dest, target, items, fns + [f], on_item, lambda: NONE)
+    lid = ('find_map', fr.body.path, fr.block)
+    pit = eng.purify(st, itv)
+    has = ('iterhas', lid, pit)
+
+    def cont(st, fr2, dest_, target_, rv):
+        eng.finish_call(st, fr2, dest, target, ite(has, rv, NONE))
+    eng.call_callable(st, f, [('iterval', lid, pit)], ('seq', dest, target, cont))
+    return DEFER
+
+
+@model('<std::option::Option<T> as std::ops::Try>::branch')
+def _opt_branch(eng, st, fr, t, args, dest, target):
+    vn, v = variant_of(eng, st, args[0], OPT)
+    if vn == 'Some':
+        return mk_enum(CF, 'Continue', 0, (payload(eng, st, v, 'Some'),))
+    return mk_enum(CF, 'Break', 1, (NONE,))
+
+
+@model('<std::option::Option<T> as std::ops::FromResidual<std::option::Option<std::convert::Infallible>>>::from_residual')
+def _opt_from_residual(eng, st, fr, t, args, dest, target):
+    return NONE
+
+
+@model('core::bool::<impl bool>::then_some', 'std::bool::<impl bool>::then_some')
+def _then_some(eng, st, fr, t, args, dest, target):
+    return ite(args[0], SOME(args[1]), NONE)
+
+
+@model('core::bool::<impl bool>::then', 'std::bool::<impl bool>::then')
+def _then(eng, st, fr, t, args, dest, target):
+    if eng.decide(st, args[0]):
+        eng.call_callable(st, args[1], [], ('wrap', dest, target, SOME))
+        return DEFER
+    return NONE
+
+
+@model('std::option::Option::<T>::or_else')
+def _opt_or_else(eng, st, fr, t, args, dest, target):
+    vn, v = variant_of(eng, st, args[0], OPT)
+    if vn == 'Some':
+        return v if v[0] == 'enum' else SOME(payload(eng, st, v, 'Some'))
+    eng.call_callable(st, args[1], [], ('wrap', dest, target, lambda x: x))
+    return DEFER
+
+
+@model('std::option::Option::<T>::or')
+def _opt_or(eng, st, fr, t, args, dest, target):
+    vn, v = variant_of(eng, st, args[0], OPT)
+    if vn == 'Some':
+        return v if v[0] == 'enum' else SOME(payload(eng, st, v, 'Some'))
+    return args[1]
+
+
+@model('std::option::Option::<T>::map_or', 'std::option::Option::<T>::is_some_and')
+def _opt_map_or(eng, st, fr, t, args, dest, target):
+    is_and = t['callee']['decl'].endswith('is_some_and')
+    vn, v = variant_of(eng, st, args[0], OPT)
+    if vn == 'Some':
+        eng.call_callable(st, args[1] if is_and else args[2], [payload(eng, st, v, 'Some')], ('wrap', dest, target, lambda x: x))
+        return DEFER
+    return FALSE if is_and else args[1]
+
+
+@model('std::option::Option::<T>::unwrap_or_default', 'std::result::Result::<T, E>::unwrap_or_default')
+def _unwrap_or_default(eng, st, fr, t, args, dest, target):
+    is_opt = 'option' in t['callee']['decl']
+    vn, v = variant_of(eng, st, args[0], OPT if is_opt else RES)
+    if vn in ('Some', 'Ok'):
+        return payload(eng, st, v, vn)
+    ga = t['callee'].get('gargs') or []
+    if ga:
+        for p, b in eng.facts.bodies.items():
+            io = b.impl_of
+            if io and (io.get('trait') or '').endswith('default::Default') and io.get('self_ty') == ga[0] and p.split('::')[-1] == 'default':
+                eng.push_call(st, b, [], dest, target, None, None)
+                return DEFER
+    return ('app', 'default', ())
+
+
+@model('std::option::Option::<T>::get_or_insert_with')
+def _get_or_insert_with(eng, st, fr, t, args, dest, target):
+    r, p = ptr_of(eng, st, args[0])
+    vn, v = variant_of(eng, st, eng.load(st, r, p), OPT)
+    if vn == 'Some':
+        return mk_ref(r, p + (('v', 'Some'), ('f', 0, '0')))
+
+    def cont(st, fr2, dest_, target_, rv):
+        eng.store(st, r, p, SOME(rv))
+        eng.finish_call(st, fr2, dest, target, mk_ref(r, p + (('v', 'Some'), ('f', 0, '0'))))
+    eng.call_callable(st, args[1], [], ('seq', dest, target, cont))
+    return DEFER
+
+
+@model('std::result::Result::<T, E>::is_ok_and', 'std::result::Result::<T, E>::is_err_and')
+def _res_is_ok_and2(eng, st, fr, t, args, dest, target):
+    want = 'Ok' if t['callee']['decl'].endswith('is_ok_and') else 'Err'
+    vn, v = variant_of(eng, st, args[0], RES)
+    if vn == want:
+        eng.call_callable(st, args[1], [payload(eng, st, v, want)], ('wrap', dest, target, lambda x: x))
+        return DEFER
+    return FALSE
+
+
+@model('std::option::Option::<T>::ok_or', 'std::option::Option::<T>::ok_or_else')
+def _ok_or(eng, st, fr, t, args, dest, target):
+    vn, v = variant_of(eng, st, args[0], OPT)
+    if vn == 'Some':
+        return OK(payload(eng, st, v, 'Some'))
+    if t['callee']['decl'].endswith('ok_or_else'):
+        eng.call_callable(st, args[1], [], ('wrap', dest, target, ERR))
+        return DEFER
+    return ERR(args[1])
+
+
+@model('std::cmp::Ord::min', 'std::cmp::Ord::max', 'std::f64::<impl f64>::min', 'std::f64::<impl f64>::max',
+       'core::f64::<impl f64>::min', 'core::f64::<impl f64>::max')
+def _minmax(eng, st, fr, t, args, dest, target):
+    nm = 'max' if t['callee']['decl'].endswith('max') else 'min'
+    a, b = eng.deref_arg(st, args[0]) if False else args[0], args[1]
+    if is_const(a) and is_const(b) and cval(a) is not None and cval(b) is not None:
+        try:
+            return a if ((cval(a) >= cval(b)) == (nm == 'max')) else b
+        except TypeError:
+            pass
+    return ('app', 'std::cmp::Ord::' + nm, (a, b))
+
+
+@model('<std::sync::mpsc::Receiver<T> as std::iter::IntoIterator>::into_iter', 'std::sync::mpsc::Receiver::<T>::iter',
+       "<&'a std::sync::mpsc::Receiver<T> as std::iter::IntoIterator>::into_iter")
+def _rx_into_iter(eng, st, fr, t, args, dest, target):
+    return ('iter', 'recv', eng.deref_arg(st, args[0]))
+
+
+@model('<std::sync::mpsc::IntoIter<T> as std::iter::Iterator>::next', "<std::sync::mpsc::Iter<'a, T> as std::iter::Iterator>::next")
+def _rx_next(eng, st, fr, t, args, dest, target):
+    it = deref(eng, st, args[0])
+    v = it[2] if it[0] == 'iter' and it[1] == 'recv' else it
+    lid = eng.enclosing_loop(fr)
+    eng.event(st, 'recv', receiver=v, fn=fr.body.path, loop=lid)
+    return ite(('iterhas', lid, ('recv', v)), SOME(('iterval', lid, ('recv', v))), NONE)
+
+
+@model('<chrono::NaiveDate as std::ops::AddAssign<chrono::TimeDelta>>::add_assign')
+def _date_add_assign(eng, st, fr, t, args, dest, target):
+    r, p = ptr_of(eng, st, args[0])
+    old = eng.load(st, r, p)
+    eng.store(st, r, p, ('app', '<chrono::NaiveDate as std::ops::Add<chrono::TimeDelta>>::add', (eng.purify(st, old), eng.purify(st, args[1]))))
+    return UNIT
+
+
+@model('chrono::NaiveDate::signed_duration_since')
+def _signed_duration_since(eng, st, fr, t, args, dest, target):
+    return ('app', '<chrono::NaiveDate as std::ops::Sub>::sub', (eng.purify(st, args[0]), eng.purify(st, args[1])))
+
+
+@model('std::ops::FnOnce::call_once', 'std::ops::Fn::call', 'std::ops::FnMut::call_mut')
+def _call_trait(eng, st, fr, t, args, dest, target):
+    f = eng.force(st, args[0])
+    if isinstance(f, tuple) and f and f[0] == 'ref':
+        f = eng.force(st, eng.load(st, f[1], f[2]))
+    tup = eng.force(st, args[1]) if len(args) > 1 else ('tuple', ())
+    if not (isinstance(f, tuple) and f and f[0] in ('fn', 'closure')) or not (isinstance(tup, tuple) and tup and tup[0] == 'tuple'):
+        import os
+        if os.environ.get('IPT_DEBUG'):
+            print('CALL-FALLBACK', repr(f)[:300])
+        return ('app', 'call', tuple(eng.purify(st, a) for a in args))
+    eng.call_callable(st, f, list(tup[1]), ('wrap', dest, target, lambda x: x))
     return DEFER
